@@ -560,18 +560,30 @@ class Emitter:
                 if ordinal > len(hits):
                     raise ExtractError('%s: ghost_at %s#%d: fragment not found (anchor lost)' % (fnid, callee, ordinal))
                 m = hits[ordinal - 1]
-                start = masked.rfind('\n', 0, m.start()) + 1
-                depth, k3, semi = 0, start, -1
+                # end of the statement: the first `;` that is not inside brackets opened after the fragment
+                depth, k3, semi = 0, m.end(), -1
                 while k3 < len(masked):
                     ch = masked[k3]
                     if ch in '([{':
                         depth += 1
                     elif ch in ')]}':
                         depth -= 1
-                    elif ch == ';' and depth == 0:
+                    elif ch == ';' and depth <= 0:
                         semi = k3
                         break
                     k3 += 1
+                # start of the statement: after the previous `;`, `{` or `}` that is not inside brackets closed before the fragment
+                depth, k3, start = 0, m.start() - 1, 0
+                while k3 >= 0:
+                    ch = masked[k3]
+                    if ch in ')]':
+                        depth += 1
+                    elif ch in '([':
+                        depth -= 1
+                    elif ch in ';{}' and depth <= 0:
+                        start = masked.find('\n', k3) + 1 if masked.find('\n', k3) >= 0 and not masked[k3 + 1:masked.find('\n', k3)].strip() else k3 + 1
+                        break
+                    k3 -= 1
                 if semi < 0:
                     raise ExtractError('%s: ghost_at %s#%d: end of statement not found (anchor lost)' % (fnid, callee, ordinal))
             else:
